@@ -110,7 +110,7 @@ MUTANTS = [
     (T, AUTO, '            final_gate_where = (i, i + 1)\n            absorb = "right"', '            final_gate_where = (i, i + 1)\n            absorb = "left"', "expect-fail"),
     (T, AUTO, '        info["cur_orthog"] = (i + 1, i + 1)\n\n        if need_to_swap and swap_back:', '        info["cur_orthog"] = (i, i)\n\n        if need_to_swap and swap_back:', "expect-fail"),
     (T, AUTO, "        mps.canonicalize_((i, i + 1), info=info)\n\n        # apply gate", "        mps.canonicalize_((i, j), info=info)\n\n        # apply gate", "expect-fail"),
-    (T, AUTO_SB, "            mps.swap_site_to(\n                i + 1, j, info=info, inplace=True, **compress_opts\n            )\n\n        return mps", "            mps.swap_site_to(\n                i + 1, j, inplace=True, **compress_opts\n            )\n\n        return mps", "expect-fail"),
+    (T, AUTO_SB, "            mps.swap_site_to(\n                i + 1, j, info=info, inplace=True, **compress_opts\n            )\n\n        return mps", "            mps.swap_site_to(\n                i + 1, j, info={\"cur_orthog\": \"calc\"}, inplace=True, **compress_opts\n            )\n\n        return mps", "expect-fail"),  # (the swap back no longer threads the caller's record)
     (T, AUTO, "            mps.swap_site_to(\n                j, i + 1, info=info, inplace=True, **compress_opts\n            )", "            mps.swap_site_to(\n                j, i + 1, info=info, inplace=False, **compress_opts\n            )", "expect-fail"),
     (T, AUTO_NIP, "        mps = self if inplace else self.copy()\n\n        i, j = where\n", "        mps = self\n\n        i, j = where\n", "expect-fail"),
     # without info= canonicalize_ recomputes the centre ('calc') and the record is overwritten right after: same behaviour
